@@ -123,7 +123,11 @@ def main():
         print('expected violation:', scen.get('expect'))
         return 0
     gate = conformance_gate(art)
-    bad = [(p, g) for p, g in gate.items() if g['disagreements'] or g['unsupported']]
+    # a disagreement means the encoder is wrong: no verdict.  A corpus input the encoder cannot interpret
+    # (unsupported construct after a repo edit) does not block the exploration: the affected paths end as
+    # `unsupported` (=> INCONCLUSIVE unless a natively confirmed violation is found on another path).
+    bad = [(p, g) for p, g in gate.items() if g['disagreements']]
+    gate_unsupported = sorted(set('%s' % d for p, g in gate.items() for s, d in g['unsupported']))
     if bad and getattr(mod, 'NEEDS_CONFORMANCE', True):
         print('INCONCLUSIVE property=%s reason=encoder-does-not-conform' % pid)
         for p, g in bad:
@@ -175,6 +179,8 @@ def main():
         print('  %s [%s] witness=%s' % (f['desc'], f['key'], f.get('witness_text', '')))
         rc = 1
     inconc = list(res.get('inconclusive', []))
+    for u in gate_unsupported[:5]:
+        inconc.append('conformance corpus input not interpretable: ' + u[:200])
     for f in nonrepro:
         inconc.append('solver model did not reproduce natively: %s [%s] %s' % (f['desc'], f['key'], f.get('witness_text', '')))
     if rc == 0 and inconc:
